@@ -373,6 +373,35 @@ def count_events(c):
     return n[0]
 
 
+def function_entry_events(c):
+    """line-event index at which each function of segno is entered during one call (first two entries per function)"""
+    prefix = os.path.join(os.path.realpath(common.REPO), 'segno')
+    n = [0]
+    seen = {}
+    points = []
+
+    def tracer(frame, event, arg):
+        if not frame.f_code.co_filename.startswith(prefix):
+            return None
+        if event == 'line':
+            n[0] += 1
+        elif event == 'call':
+            k = frame.f_code.co_name
+            seen[k] = seen.get(k, 0) + 1
+            if seen[k] <= 2:
+                points.append(n[0])
+        return tracer
+    sys.settrace(tracer)
+    try:
+        try:
+            run_call(c)
+        except Exception:  # noqa
+            pass
+    finally:
+        sys.settrace(None)
+    return sorted(set(points)), n[0]
+
+
 def schedule_obs(task):
     """two (or more) threads execute one call each under the plan; returns the log"""
     names, A, ref, plan, what = task
@@ -532,6 +561,15 @@ def run_c15(rep, tier):
             continue
         plan, _ = plan_from_tlc(sv['schedule'], [evcount[nm[0]], evcount[nm[1]]])
         sched_tasks.append((nm, A, ref, plan, f'TLC schedule #{k * step} ({sv["switches"]} switches) on {nm}'))
+    # (d2) single pre-emption sweep: thread 1 is paused at every function entry (+ a few lines) and at a grid of evenly spaced
+    #      points, thread 2 runs to completion, thread 1 finishes (the one-switch schedules of the model at fine resolution)
+    sweep_pairs = [('v5', 'v5b'), ('hello_L', 'hello_noboost_L'), ('m3', 'm4q'), ('v10', 'v10b')] if tier == 'quick' else pairs
+    grid = 48 if tier == 'quick' else 200
+    for pa, pb in sweep_pairs:
+        entries, total = function_entry_events(A[pa])
+        pts = set(entries) | {e + 3 for e in entries} | {max(1, (i * total) // grid) for i in range(1, grid)}
+        for pt in sorted(x for x in pts if 0 < x < total):
+            sched_tasks.append(([pa, pb], A, ref, [[0, pt], [1, 10 ** 9], [0, 10 ** 9]], f'single pre-emption of {pa} after {pt} of {total} line events, then {pb}'))
     # (e) seeded line-level pre-emption fuzzing
     nfuzz = 120 if tier == 'quick' else 3000
     for k in range(nfuzz):
